@@ -192,6 +192,15 @@ class CertFam(Family):
                 kind = rng.choice(["honest", "honest", "honest", "dup", "dup-apart", "sub", "swap-msg", "relabel-view", "wrong-qc", "nil", "via-create",
                                    "count-mismatch", "count-mismatch", "genesis-twins", "genesis-twins"])
                 twin = None
+                forged = None
+                if kind == "honest" and honest_qcs and rng.random() < 0.4:
+                    # everybody attests one honest QC; the proposal's block carries a forged twin of it (same
+                    # view and block, too few signatures): the block's own QC has to verify all the same
+                    hq = rng.choice(honest_qcs)
+                    k_ = hq[1:] if hq[1:].isdigit() else None
+                    if k_ is not None:
+                        att = {i: hq for i in ids}
+                        forged = (hq, k_)
                 if kind == "genesis-twins":
                     # every signer attests the genesis QC, either the unsigned one or its twin with a
                     # present-but-empty signature; the proposal's block carries the other one
@@ -257,6 +266,14 @@ class CertFam(Family):
                     self._sigset(L, scheme, nm + "s", pairs)
                     L.append(f"agg {nm} sig={nm}s view={view} qcs=" + (",".join(f"{i}:{qcs[i]}" for i in qcs) or "-"))
                 L.append(f"verify-agg {R()} {nm}")
+                if forged is not None:
+                    hq, k_ = forged
+                    fq = fresh("fq")
+                    vw = next((vv for bb, vv in views if bb == f"B{k_}"), None)
+                    if vw is not None:
+                        L.append(f"qc {fq} sig=s{k_}_{ids[0]} view={vw} hash=B{k_}")
+                        L.append(f"block {fq}b parent=B{k_} view={vw + 1} proposer={R()} qc={fq}")
+                        L.append(f"verify-any {R()} {fq}b {nm}")
                 if twin is not None:
                     L.append(f"verify-any {R()} BE {nm}")
                     L.append(f"verify-any {R()} BG {nm}")
